@@ -2,12 +2,11 @@
    Every proof here is re-run by every ./check C03; leaf comparisons are semantic (lra / field), so a harmless
    rewrite of the C++ passes and a change of a guard, a tolerance, a sign or a formula does not. *)
 From Coq Require Import QArith Reals String List Qreals Lra Bool.
-Require Import IPV.C03.Syntax IPV.C03.SymExec IPV.C03.Hetero IPV.C03.Spec IPV.Gen.Gen_C03_model.
+Require Import IPV.C03.Syntax IPV.C03.SymExec IPV.C03.WpTac IPV.C03.Hetero IPV.C03.Spec IPV.Gen.Gen_C03_model.
 Import ListNotations.
 Open Scope string_scope.
 Open Scope R_scope.
 
-Ltac q2r := unfold Q2R in *; cbn [Qnum Qden] in *.
 
 (* ln 10 > 2 from the standard library alone (exp 1 <= 3): all that the bounds below need *)
 Lemma ln10_gt_2 : 2 < ln 10.
@@ -538,4 +537,22 @@ Section Tie.
       call_before "set_initial_moles" "run_reactions" reaction_step_body false = Some true /\
       calls "run_reactions" reaction_step_body = true.
   Proof. vm_compute. split; reflexivity. Qed.
+  (* ---------------------------------------------------------------- ineq(): the equation of a force_equality phase *)
+
+  (* -force_equality means: the saturation-index equation of the phase is handed to the solver as an EQUALITY.  For a
+     pure-phase unknown whose component has force_equality set, the body of the loop that copies the equality
+     equations reaches the copy (memcpy) and ends normally - whatever the amount of the phase, its saturation state,
+     its alternative formula, and whether it is "in" the model - unless the unknown is the mass-of-oxygen unknown
+     (never the case for a pure phase). *)
+  Lemma forced_phase_equation_always_copied : forall e,
+      e "x.type" = Q2R c_PP ->
+      e "comp_ptr.force_equality" <> 0 ->
+      e "x" <> e "mass_oxygen_unknown" ->
+      wp ineq_equalities e (fun e1 fl => fl = FNormal /\ e1 "called:memcpy" = 1).
+  Proof.
+    intros e Hty Hforce Hx. unfold ineq_equalities, c_PP in *. q2r.
+    assert (Hty' : e "x.type" = 18) by lra. clear Hty.
+    repeat wp_step.
+    all: cbn; split; [reflexivity | lra].
+  Qed.
 End Tie.
